@@ -127,3 +127,45 @@ PROPS["C07"] = dict(
     trusted=VM_TRUSTED,
     assumptions=["K2 (documented residual): compute children each start with the full limit; the excess is reported as OutOfGas at the join, no observable result depends on the extra work"],
 )
+
+PROPS["C09"] = dict(
+    modules=["Essential.Props.C09"],
+    gen=gen_vm.c09_cases,
+    project=vm_project, nontrivial=vm_nontrivial, classify=vm_classify, model_is_spec=True,
+    exhaustive="jump distance grid (25 distances incl. i64 extremes) x 5 conditions; repeat counts x 4 direction words; 4x5x2x2 nested loops; nesting to the repeat-stack limit + 1",
+    rule="cases: JumpIf over a distance x condition grid at several positions, Halt/HaltIf/PanicIf with every condition, Repeat with "
+         "counts <=0, 1, n in both directions observing RepeatCounter, nested loops, loops left by jump/halt, RepeatEnd/"
+         "RepeatCounter without a loop, nesting up to the limit, eval results; observables: pc, stack, gas at cost 1 (= number of "
+         "executed ops), eval result; non-trivial = distinct case executing at least one op",
+    trusted=VM_TRUSTED,
+    assumptions=[],
+)
+
+PROPS["C10"] = dict(
+    modules=["Essential.Props.C10"],
+    gen=gen_vm.c10_cases,
+    project=vm_project, nontrivial=vm_nontrivial, classify=vm_classify, model_is_spec=True,
+    exhaustive="12 child bodies x breadths -1,0,1,2,3,4,7 x with/without parent continuation; breadths 50, 1000, 4097; combined-memory boundary 10230/10240/10250",
+    rule="cases: Compute with breadths <=0, 1, n (up to 4097) over child bodies with index-dependent jumps and allocation sizes, "
+         "parent-memory reads, halts, an error in one child, nested Compute, no ComputeEnd, repeat state inherited from the parent, "
+         "parent stack full, combined memory at/above the limit; observables: parent stack, memory, pc, gas; the *inner* child "
+         "error is not compared (rayon leaves it unspecified); non-trivial = distinct case that spawns at least one child",
+    trusted=VM_TRUSTED,
+    assumptions=["schedule independence of the join is C02's; here the model runs children in index order",
+                 "K1: breadth above the model's maxBreadth is screened"],
+)
+
+PROPS["C11"] = dict(
+    modules=["Essential.Props.C11"],
+    gen=gen_vm.c11_cases,
+    project=vm_project, classify=vm_classify, model_is_spec=True,
+    exhaustive="4 read ops x 9 keys x 6 counts x 6 addresses x 4 memory sizes (sampled 25% in the quick tier) against a scripted state with distinct answers per view/contract/key/count",
+    rule="cases: each of the four reads with keys of length 0..3, counts 0..3/-1/i64::MAX, addresses 0,1,3,-1,50,i64::MAX, memory "
+         "sizes 0..40, a scripted recording state returning empty values, different lengths, fewer/more values than requested and "
+         "errors, different pre/post contents and own/external contracts; the oracle checks the recorded request, the [addr,len] "
+         "pair table + back-to-back values, the frame and the stack below the operands; non-trivial = distinct case whose read "
+         "reaches the state view",
+    nontrivial=lambda body, out: out.startswith("ok ") or "StateRead" in out or "Memory" in out,
+    trusted=VM_TRUSTED,
+    assumptions=[],
+)
